@@ -1095,8 +1095,13 @@ impl CompilerContext<'_> {
     }
 
     fn all_signatures(&self) -> impl Iterator<Item=&'_ Signature> {
-        let ins_sigs = self.defs.instrs.values().map(|data| &data.sig);
-        let non_ins_sigs = self.defs.funcs.values().filter_map(|func| func.sig.as_ref());
+        // (sorted, so that diagnostics do not come out in hash order)
+        let mut instrs = self.defs.instrs.iter().collect::<Vec<_>>();
+        let mut funcs = self.defs.funcs.iter().collect::<Vec<_>>();
+        instrs.sort_by_key(|&(&key, _)| key);
+        funcs.sort_by_key(|&(&key, _)| key);
+        let ins_sigs = instrs.into_iter().map(|(_, data)| &data.sig);
+        let non_ins_sigs = funcs.into_iter().filter_map(|(_, func)| func.sig.as_ref());
         ins_sigs.chain(non_ins_sigs)
     }
 
@@ -1158,7 +1163,7 @@ impl Defs {
 
         self.enums.keys()
             .map(|candidate| (candidate, strsim::osa_distance(input.as_str(), candidate.as_str())))
-            .min_by_key(|&(_, distance)| distance)
+            .min_by(|&(a, a_distance), &(b, b_distance)| a_distance.cmp(&b_distance).then_with(|| a.as_str().cmp(b.as_str())))
             .filter(|&(_, distance)| distance <= max_distance)
             .map(|(candidate, _)| candidate.clone())
     }
